@@ -707,6 +707,16 @@ static void do_rpregion(const J& g, W& w) {
             cen.push_back(s.f(u) + n * (off + (off1 - off) * u));
         }
     double hw = width / 2;
+    // corner vertices of a polyline path (all sections straight) with the reach of their mitre
+    std::vector<std::pair<Vec2, double>> corners;
+    if (g.has("poly") && g["poly"].t()) {
+        for (size_t i = 0; i + 1 < secs.size(); i++) {
+            Vec2 a = secs[i].df(1.0), b = secs[i + 1].df(0.0);
+            double c = a.inner(b) / (a.length() * b.length() + 1e-300);
+            double half = 0.5 * acos(fmax(-1.0, fmin(1.0, c)));
+            corners.push_back({secs[i].f(1.0), hw / fmax(0.2, cos(half)) + 0.3});
+        }
+    }
     if (ends == "halfwidth" && !cen.empty()) {
         const int K = 200;
         Vec2 d0 = secs.front().df(0.0), d1 = secs.back().df(1.0);
@@ -742,7 +752,13 @@ static void do_rpregion(const J& g, W& w) {
                 int64_t cm = (int64_t)fmax(-1e6, fmin(1e6, clr >= 0 ? ceil(clr / (tol * 1e-3)) : floor(clr / (tol * 1e-3))));
                 Vec2 qr = rotated ? Vec2{ca * q.x - sa * q.y, sa * q.x + ca * q.y} : q;
                 qr = qr * mag;
-                w.begin_arr().i(inside_poly(out[0]->point_array, qr) ? 1 : 0).i(cm).i(interior ? 1 : 0).end_arr();
+                // polyline paths: around a corner the sides meet in a mitre, which is neither the disc
+                // sweep nor cut short of it: samples within the mitre's reach of a corner vertex are
+                // marked 2 (no claim either way)
+                int flag = interior ? 1 : 0;
+                for (auto& cv : corners)
+                    if ((q - cv.first).length() <= cv.second) flag = 2;
+                w.begin_arr().i(inside_poly(out[0]->point_array, qr) ? 1 : 0).i(cm).i(flag).end_arr();
             }
     }
     w.end_arr();
